@@ -15,6 +15,7 @@ from spec_classes.utils.mutation import (
     mutate_value,
     prepare_attr_value,
     protect_via_deepcopy,
+    resolve_attr_spec,
 )
 
 from .base import AttrMethodDescriptor
@@ -127,8 +128,13 @@ class UpdateAttrMethod(AttrMethodDescriptor):
             expected_type=attr_spec.type,
             attrs=attrs,
         )
-        if not _inplace and new_value is getattr(self, attr_spec.name, MISSING):
-            # Nothing was changed; do not let the copy alias the current value.
+        if (
+            not _inplace
+            and new_value is getattr(self, attr_spec.name, MISSING)
+            and not resolve_attr_spec(attr_spec, self).do_not_copy
+        ):
+            # Nothing was changed; do not let the copy alias the current value
+            # (unless the attribute is declared as never to be copied).
             new_value = protect_via_deepcopy(new_value)
         return WithAttrMethod.with_attr(
             attr_spec,
@@ -213,8 +219,13 @@ class TransformAttrMethod(AttrMethodDescriptor):
             expected_type=attr_spec.type,
             attr_transforms=attr_transforms,
         )
-        if not _inplace and new_value is getattr(self, attr_spec.name, MISSING):
-            # Nothing was changed; do not let the copy alias the current value.
+        if (
+            not _inplace
+            and new_value is getattr(self, attr_spec.name, MISSING)
+            and not resolve_attr_spec(attr_spec, self).do_not_copy
+        ):
+            # Nothing was changed; do not let the copy alias the current value
+            # (unless the attribute is declared as never to be copied).
             new_value = protect_via_deepcopy(new_value)
         return WithAttrMethod.with_attr(
             attr_spec,
